@@ -284,6 +284,9 @@ func C18(tier string) int {
 			run.Sample("scripted-case", 3, c)
 		}
 	})
+	// histories of client calls (explicit-state search, checks/clientbfs.go)
+	run.Rule += clientSearchRule
+	clientSearch(run, "C18", 0)
 	return run.Finish()
 }
 
